@@ -203,6 +203,7 @@ MUTANTS = [
 ''', '', 'revert fix: cached counter survives between fills'),
     ('c25-nooffset', 'C25', GROUP, 'counter=str(current_counter + counter_offset),', 'counter=str(current_counter),', 'autofill drops the mempool offset'),
     ('c25-firstcontent', 'C25', IMPL, '                    counter_offset += 1\n', '                    counter_offset += 1\n                    break\n', 'pending batch counted as one operation'),
+    ('c25-unprocessed', 'C25', IMPL, "chain(mempool.get('validated', []), mempool.get('applied', []), mempool.get('unprocessed', []))", "chain(mempool.get('validated', []), mempool.get('applied', []))", 'asynchronously injected (not yet classified) operations not counted as pending'),
     ('c25-noreset', 'C25', GROUP, '        self.context.reset()  # reset counter\n', '', 'inject no longer resets the cached counter (masked by the per-fill re-read unless counter= is used)'),
     ('c25-offbyone', 'C25', IMPL, "            self.counter = int(self.shell.contracts[key_hash]()['counter'])\n", "            self.counter = int(self.shell.contracts[key_hash]()['counter']) + (1 if self.shell.mempool.pending_operations().get('refused') else 0)\n", 'counter shifted when the mempool has refused operations of anyone'),
     ('c24-firstonly', 'C24', GROUP, "'fee': lambda i, x: str(default_fee(x, gas_limit, minimal_nanotez_per_gas_unit)),", "'fee': lambda i, x: str(default_fee(x, gas_limit, minimal_nanotez_per_gas_unit) if i == 0 else 0),", 'revert fix: fee on first content only'),
